@@ -212,7 +212,7 @@ func init() {
 					}
 				}
 			}
-			for i := 0; i < l.N(60, 800); i++ {
+			for i := 0; i < l.N(60, 4000); i++ {
 				p := netParams{N: 3 + rng.Intn(10), BaseRows: []int{4, 30, 300}[rng.Intn(3)], Branches: 1 + rng.Intn(3), MaxPack: packs[rng.Intn(len(packs))], Tags: rng.Intn(3) == 0}
 				switch rng.Intn(10) {
 				case 0, 1, 2, 3:
